@@ -428,13 +428,18 @@ private:
 
     if (BSP && !UseMonotonic) {
       msS = p.scanStart;
+      // Read each remote scanStart once: std::min returns a reference, and
+      // the owner may advance the value between the comparison and the copy,
+      // which would move msS beyond this thread's own scanStart.
       if (localLeader || uniformBSP) {
         for (unsigned i = 0; i < runtime::activeThreads; ++i) {
-          msS = std::min(msS, data.getRemote(i)->scanStart);
+          deltaIndex o = data.getRemote(i)->scanStart;
+          msS          = std::min(msS, o);
         }
       } else {
-        msS = std::min(
-            msS, data.getRemote(substrate::ThreadPool::getLeader())->scanStart);
+        deltaIndex o =
+            data.getRemote(substrate::ThreadPool::getLeader())->scanStart;
+        msS = std::min(msS, o);
       }
     }
 
